@@ -147,3 +147,82 @@ def socket_source(data: bytes, chunks, buffered: bool, delay: float = 0.0):
     raw = RecordingRaw(socket.SocketIO(b, "rb"))
     raw._sock = b  # keep alive
     return (io.BufferedReader(raw) if buffered else raw), raw, t
+
+
+class EOFSpin(BaseException):
+    """The reader keeps polling a source that has signalled end-of-file (a hang in the making).
+
+    Derived from BaseException so that no `except Exception` in the code under test can swallow it."""
+
+
+class SeekableDribbleRaw(DribbleRaw):
+    """Seekable raw source (a file on a slow medium, a range-request reader) with short reads."""
+
+    def seekable(self):
+        return True
+
+    def tell(self):
+        return self.pos
+
+    def seek(self, off, whence=0):
+        if whence == 0:
+            new = off
+        elif whence == 1:
+            new = self.pos + off
+        else:
+            new = len(self.data) + off
+        if new < 0:
+            raise OSError(22, "negative seek position")
+        self.pos = new
+        return self.pos
+
+
+class SpinGuardRaw(DribbleRaw):
+    """DribbleRaw that raises EOFSpin once it has answered `limit` reads at end-of-file (logical-step watchdog)."""
+
+    def __init__(self, data: bytes, schedule, limit: int = 2000, seekable: bool = False):
+        super().__init__(data, schedule)
+        self.eof_reads = 0
+        self.limit = limit
+        self._seekable = seekable
+
+    def seekable(self):
+        return self._seekable
+
+    def readinto(self, b):
+        if self.pos >= len(self.data):
+            self.eof_reads += 1
+            if self.eof_reads > self.limit:
+                raise EOFSpin(f"{self.eof_reads} reads answered with end-of-file and the reader is still asking")
+        return super().readinto(b)
+
+
+def header_probe_sources(data: bytes):
+    """[(name, factory)]: file objects over `data` whose FIRST look at the stream is awkward in a different way each
+    (short first reads, look-ahead that shows fewer than three bytes, positions other than 0).  All are legitimate
+    binary file objects a caller may hand to the parser."""
+    import gzip
+
+    big = 1 << 20
+    out = [("bytesio", lambda: io.BytesIO(data))]
+    for sched in ([1], [2], [1, big], [2, big], [1, 1, big]):
+        tag = "-".join("k" if x == big else str(x) for x in sched)
+        out.append((f"raw-nonseekable[{tag}]", lambda s=sched: DribbleRaw(data, s)))
+        out.append((f"buffered-nonseekable[{tag}]", lambda s=sched: io.BufferedReader(DribbleRaw(data, s))))
+        out.append((f"buffered-seekable[{tag}]", lambda s=sched: io.BufferedReader(SeekableDribbleRaw(data, s))))
+
+    def tail_of_buffer(k: int, bufsize: int):
+        # the caller already consumed a container header through the same BufferedReader; only k bytes of the
+        # stream are left in its buffer when the parser gets it
+        pre = b"\x00" * (bufsize - k)
+        f = io.BufferedReader(io.BytesIO(pre + data), buffer_size=bufsize)
+        f.read(len(pre))
+        return f
+    for k in (1, 2):
+        for bufsize in (16, 8192):
+            out.append((f"buffered-seekable-tail{k}-of-{bufsize}", lambda k=k, b=bufsize: tail_of_buffer(k, b)))
+    comp = gzip.compress(data)
+    # (GzipFile reads its two magic bytes with one read(2): schedules start with >= 2)
+    out.append(("gzip-over-dribbling-seekable[2]", lambda: gzip.GzipFile(fileobj=SeekableDribbleRaw(comp, [2]), mode="rb")))
+    out.append(("gzip-over-dribbling-seekable[2-k]", lambda: gzip.GzipFile(fileobj=SeekableDribbleRaw(comp, [2, big]), mode="rb")))
+    return out
